@@ -425,7 +425,7 @@ let run_history_case c =
       (match parse_script parse_float_oracle max_depth e.escript with
        | ParseOk ast ->
          let m0 = { stk = []; menv = e.eenv; trace = []; polls = mc.mctx } in
-         if mc.mctx <> None then "na" else
+         if mc.mctx <> None || mc.mprog.pmain = [] then "na" else   (* VM.Run refuses an empty program before interpreting anything *)
          (match sblock stdlib_oracle e.efns ob fuel ast m0 with
           | XNormal m -> Printf.sprintf "ok|n|%s|%s" (enc_trace (List.rev m.trace)) (enc_vars m.menv.globals)
           | XReturn (v, m) -> Printf.sprintf "ok|%s|%s|%s" (enc_value v) (enc_trace (List.rev m.trace)) (enc_vars m.menv.globals)
